@@ -6,7 +6,10 @@ use crate::ops::*;
 use crate::prog::*;
 use crate::progcheck::*;
 use crate::Explored;
+use corgi::array::{Array, BackwardOp, ForwardOp};
+use corgi::numbers::Float;
 use serde_json::json;
+use std::rc::Rc;
 
 pub struct Space {
     pub name: &'static str,
@@ -232,6 +235,82 @@ fn structured_programs(var: u64) -> Vec<(String, Program)> {
     out
 }
 
+/// identity on `x` as a user operation whose derivative closure runs `(k * w).backward(None)`
+fn nest(x: &Array, w: &Array, k: Float) -> Array {
+    let fwd: ForwardOp = Rc::new(|x: &[&Array]| Array::from((x[0].dimensions().to_vec(), x[0].values().to_vec())));
+    let w = w.clone();
+    let bwd: BackwardOp = Rc::new(move |_, t, x| {
+        let inner = &w * k;
+        inner.backward(None);
+        vec![if t[0] { Some(Array::from((x.dimensions().to_vec(), x.values().to_vec()))) } else { None }]
+    });
+    Array::op(&[x], fwd, Some(bwd))
+}
+
+fn nested_pass_cases(l: &mut Local) {
+    let av: Vec<Float> = vec![1.5, -2.0, 0.25];
+    let bv: Vec<Float> = vec![2.0, 0.5, -1.0];
+    let seeds: Vec<(&str, Option<Vec<Float>>)> = vec![("ones", None), ("generic", Some(vec![1.0, 2.0, -3.0])), ("zeros", Some(vec![0.0, 0.0, 0.0]))];
+    // name, builder (a, b) -> root, expected gradient of a and of b as functions of (A, B, s) per element
+    type Build = fn(&Array, &Array) -> Array;
+    type Expect = fn(Float, Float, Float) -> (Float, Float);
+    let progs: Vec<(&str, Build, Expect)> = vec![
+        ("r=nest(b|w)+w, w=a*a", |a, b| { let w = a * a; &nest(b, &w, 3.0) + &w }, |a, _b, s| (2.0 * a * (s + 3.0), s)),
+        ("r=w+nest(b|w), w=a*a", |a, b| { let w = a * a; &w + &nest(b, &w, 3.0) }, |a, _b, s| (2.0 * a * (s + 3.0), s)),
+        ("r=nest(b|w)*w, w=a*a", |a, b| { let w = a * a; &nest(b, &w, 3.0) * &w }, |a, b, s| (2.0 * a * b * s + 6.0 * a, a * a * s)),
+        ("r=w*nest(b|w), w=a*a", |a, b| { let w = a * a; &w * &nest(b, &w, 3.0) }, |a, b, s| (2.0 * a * b * s + 6.0 * a, a * a * s)),
+        ("r=nest(b|w), w=a*a", |a, b| { let w = a * a; nest(b, &w, 3.0) }, |a, _b, s| (6.0 * a, s)),
+        ("r=(nest(b|w)+nest(b|w))+w, w=a*a", |a, b| { let w = a * a; &(&nest(b, &w, 3.0) + &nest(b, &w, 3.0)) + &w }, |a, _b, s| (2.0 * a * (s + 6.0), 2.0 * s)),
+        ("r=nest(b|a)+a", |a, b| &nest(b, a, 3.0) + a, |_a, _b, s| (s + 3.0, s)),
+        ("r=a+nest(b|a)", |a, b| a + &nest(b, a, 3.0), |_a, _b, s| (s + 3.0, s)),
+        ("r=nest(b|w2)+w, w=a*a, w2=w*a", |a, b| { let w = a * a; let w2 = &w * a; &nest(b, &w2, 3.0) + &w }, |a, _b, s| (2.0 * a * s + 9.0 * a * a, s)),
+        ("r=nest(x|w)+w, x=b*b, w=a*a", |a, b| { let w = a * a; let x = b * b; &nest(&x, &w, 3.0) + &w }, |a, b, s| (2.0 * a * (s + 3.0), 2.0 * b * s)),
+        ("r=(nest(b|w)+w)+w, w=a*a", |a, b| { let w = a * a; &(&nest(b, &w, 3.0) + &w) + &w }, |a, _b, s| (2.0 * a * (2.0 * s + 3.0), s)),
+        ("r=(w*b)+nest(b|w), w=a*a", |a, b| { let w = a * a; &(&w * b) + &nest(b, &w, 3.0) }, |a, b, s| (2.0 * a * (b * s + 3.0), a * a * s + s)),
+    ];
+    for (name, build, expect) in &progs {
+        for (sname, seed) in &seeds {
+            for passes in 1..=2usize {
+                let case = || format!("nested pass: {} seed={} passes={}", name, sname, passes);
+                if !l.want(&case) {
+                    continue;
+                }
+                l.states += 1;
+                l.transitions += 1;
+                l.validated += 1;
+                let (av2, bv2, seed2) = (av.clone(), bv.clone(), seed.clone());
+                let build = *build;
+                let got = run_catch(move || {
+                    let a = Array::from((vec![3], av2)).tracked();
+                    let b = Array::from((vec![3], bv2)).tracked();
+                    let r = build(&a, &b);
+                    for _ in 0..passes {
+                        r.backward(seed2.clone().map(|s| Array::from((vec![3], s))));
+                    }
+                    let ga = a.gradient().as_ref().map(|g| g.values().to_vec());
+                    let gb = b.gradient().as_ref().map(|g| g.values().to_vec());
+                    (ga, gb)
+                });
+                let s: Vec<Float> = seed.clone().unwrap_or(vec![1.0; 3]);
+                let want_a: Vec<Float> = (0..3).map(|i| passes as Float * expect(av[i], bv[i], s[i]).0).collect();
+                let want_b: Vec<Float> = (0..3).map(|i| passes as Float * expect(av[i], bv[i], s[i]).1).collect();
+                match got {
+                    Err(m) => l.violation("nested-pass", case(), format!("panicked: {}", m)),
+                    Ok((ga, gb)) => {
+                        l.outcome(digest_str(&format!("{:?}{:?}", ga, gb)));
+                        if ga.as_deref() != Some(&want_a[..]) {
+                            l.violation("nested-pass", case(), format!("gradient of a is {:?}, the two passes together give {:?}", ga, want_a));
+                        } else if gb.as_deref() != Some(&want_b[..]) {
+                            l.violation("nested-pass", case(), format!("gradient of b is {:?}, the two passes together give {:?}", gb, want_b));
+                        }
+                    }
+                }
+                l.sample(&case);
+            }
+        }
+    }
+}
+
 pub fn explore(opts: &Opts) -> Explored {
     let var = opts.seed % 3;
     let mut total = Local::new(opts.only.clone());
@@ -261,6 +340,15 @@ pub fn explore(opts: &Opts) -> Explored {
             }
         }
         stats.push(json!({"space": "structured larger graphs", "programs": progs.len(), "kinds": "fan-out 10..130, chain depth 10..80, diamond width 4..32"}));
+    }
+    // a pass started inside a user derivative closure while the outer pass is running, over a node that
+    // the outer graph shares (and that does not depend on the operation's own operands): both passes
+    // are ordinary passes, so every leaf ends with the sum of their contributions
+    {
+        let l = &mut total;
+        let n0 = l.transitions;
+        nested_pass_cases(l);
+        stats.push(json!({"space": "pass nested in a user derivative closure", "executions": l.transitions - n0}));
     }
     Explored {
         local: total,
